@@ -221,6 +221,26 @@ def State.WF (s : State U B D) : Prop := s.users.WF ∧ s.signed.WF
 
 def State.init : State U B D := ⟨Tbl.empty, Tbl.empty, Store.empty, 0⟩
 
+/-! ## process restart: `initDB` on an existing data directory -/
+
+def InitStmt.harmless : InitStmt → Bool
+  | .createIfNotExists _ | .additive => true
+  | .destructive | .unknown => false
+
+/-- effect of one start-up statement on the content of an existing cache file (a statement that
+is not known to be harmless is given its worst case) -/
+def applyInit (c : Store U B D) : InitStmt → Store U B D
+  | .createIfNotExists _ => c
+  | .additive => c
+  | .destructive => Store.empty
+  | .unknown => Store.empty
+
+/-- the daemon is started on a data directory that already holds a cache file -/
+def reopen (stmts : List InitStmt) (c : Store U B D) : Store U B D := stmts.foldl applyInit c
+
+/-- start-up statements of the current code on the SQLite files -/
+def initShape : List InitStmt := [.createIfNotExists .users, .createIfNotExists .signed]
+
 inductive Op (U B D : Type)
   | save (u : U) (b : B)                     -- SaveUserProfile (add or change)
   | delete (u : U)                           -- DeleteUserProfile
@@ -228,6 +248,7 @@ inductive Op (U B D : Type)
   | deleteSigned (u : U) (t : Nat)           -- DeleteSigned
   | tick (d : Nat)                           -- the clock advances
   | sync (sem : TxSem) (fault : Option Nat)  -- copyDBIntoSQLite
+  | restart                                  -- the daemon is stopped and started again (initDB)
 
 def Op.isSync : Op U B D → Bool
   | .sync _ _ => true
@@ -245,6 +266,7 @@ def stepOpWith (shape : List SyncSite) (s : State U B D) : Op U B D → State U 
   | .deleteSigned u t => { s with signed := s.signed.del (u, t) }
   | .tick d => { s with now := s.now + d }
   | .sync sem fault => { s with cache := syncWith shape sem s.rowsU s.rowsS s.cache fault }
+  | .restart => { s with cache := reopen initShape s.cache }
 
 def stepOp (s : State U B D) (o : Op U B D) : State U B D := stepOpWith syncShape s o
 
